@@ -103,7 +103,7 @@ class C11(Check):
         "reference or namespace. Distinct by digest."
     )
     assumptions = ["JSON true/false are not numbers: a boolean default never matches int/long/float/double"]
-    required_labels = ["valid", "valid:s:ref", "valid:s:recursive", "valid:s:short-name-clash"] + ["mut:" + m for m in MUTATIONS]
+    required_labels = ["valid", "valid:decimal-edge", "valid:s:ref", "valid:s:recursive", "valid:s:short-name-clash"] + ["mut:" + m for m in MUTATIONS]
     quick = (6000, 1)
     thorough = (15000, 16)
 
@@ -122,6 +122,8 @@ class C11(Check):
             ir, table, js = gen.build_schema(d, feat)
             gen.check_truth(ir, table, js)
             if d.p(0.45):
+                if d.p(0.3):
+                    js = self.with_valid_decimal(d, js)
                 return {"schema": js, "mutation": None}
             start = d.i(len(MUTATIONS))
             for j in range(len(MUTATIONS)):
@@ -132,6 +134,33 @@ class C11(Check):
             return {"schema": js, "mutation": None}
 
         return cases()
+
+    def with_valid_decimal(self, d, js):
+        """A valid decimal annotation at the edges of what the specification allows (scale == precision, scale 0 or
+        absent, the largest precision the fixed size can hold, precision 1) added as a record field, or on its own."""
+        js = copy.deepcopy(js)
+        which = d.choice(["bytes", "fixed"])
+        dec = {"type": which, "logicalType": "decimal"}
+        if which == "fixed":
+            dec["name"] = "ValidDecimalFixed"
+            dec["size"] = d.choice([1, 2, 4, 8, 16, 3])
+            mx = len(str(2 ** (8 * dec["size"] - 1) - 1)) - 1
+            dec["precision"] = d.choice([mx, 1, max(1, mx - 1)])
+        else:
+            dec["precision"] = d.choice([1, 2, 38, 1000])
+        w = d.choice(["eq", "zero", "absent", "mid"])
+        if w == "eq":
+            dec["scale"] = dec["precision"]
+        elif w == "zero":
+            dec["scale"] = 0
+        elif w == "mid":
+            dec["scale"] = dec["precision"] // 2
+        recs = [(p, s) for p, s, ns, k in walk_json(js) if k == "record"]
+        if recs and "ValidDecimalFixed" not in repr(js):
+            path, rec = d.choice(recs)
+            rec["fields"].insert(d.i(len(rec["fields"]) + 1), {"name": "validdecimal", "type": dec})
+            return js
+        return dec if not recs else js
 
     # ------------------------------------------------------------------ mutations
     def mutate(self, d, kind, js, ir, table):
@@ -283,6 +312,8 @@ class C11(Check):
         mut = case.get("mutation")
         if mut is None:
             labels = {"valid"}
+            if "validdecimal" in repr(js) or (isinstance(js, dict) and js.get("logicalType") == "decimal"):
+                labels.add("valid:decimal-edge")
             node, table = M.resolve(js)
             for l in gen.schema_labels(node, table):
                 labels.add("valid:" + l)
